@@ -128,7 +128,7 @@ func (db *DB) processFollowers(stop <-chan interface{}) {
 	onFollowerJoined := func(f *follower) {
 		metrics.FollowerJoined(f.FollowerID)
 		db.log.Debugf("Follower %v joined starting at offset %v", f.FollowerID, f.EarliestOffset)
-		verifPoint(db, "", "follower-joined", nil)
+		verifPoint(db, f.FollowerID.String(), "follower-joined", nil)
 		followers[f.FollowerID] = f
 
 		partitions := streams[f.Stream]
